@@ -70,7 +70,10 @@ def concretise(show, classes, sentinel):
                 return          # the same identifier cannot be both the AST key and the builtin
             e = text.replace('(lambda:K)()', "(lambda: 'ab')()").replace('[c_for_c_in_K]', "[c for c in 'ab']")
             e = e.replace('FMT__', "'{0.__class__.__name__}'.format").replace('FMT', "'{0.real}'.format")
-            e = e.replace('.__d__', '.__class__').replace('.p', '.upper')
+            # a dunder written with a compatibility low line (U+FF3F): identifiers are NFKC-normalised when the expression is compiled,
+            # so this IS .__class__ although the text holds no ASCII double underscore
+            alt_dunder = ('.__d__' in e) and (len(out) % 2 == 1)
+            e = e.replace('.__d__', '._\uff3fclass_\uff3f' if alt_dunder else '.__class__').replace('.p', '.upper')
             # plausible arguments for a call by name
             for cls, m in chosen.items():
                 if cls in ('cap', 'shadow'):      # an AST key that shadows a capability is called like the capability
